@@ -78,7 +78,8 @@ static Vec naive_tmul(const Mat& A, const Vec& x) { Vec y(A.cols()); for (long j
 static bool prod_close(const Vec& f, const Vec& g, const Vec& absbound, long d) {
     if (f.size() != g.size()) return false;
     for (long i = 0; i < f.size(); i++) {
-        if (std::isnan(f[i]) || std::isnan(g[i]) || std::isinf(f[i]) || std::isinf(g[i])) continue;   // non-finite: compared through the canonical NaN column only
+        if (!std::isfinite(g[i])) continue;           // a non-finite loop result is compared through the canonical NaN column only
+        if (!std::isfinite(f[i])) return false;        // ... but the library must not return a non-finite entry where the explicit loop is finite
         if (!(std::fabs(f[i] - g[i]) <= 8.0 * (double) (d + 2) * 2.220446049250313e-16 * absbound[i] + 1e-300)) return false;
     }
     return true;
@@ -236,12 +237,13 @@ static void run_history(const CaseId& cid, const Gen& g, long ncomp, long ncv, c
                 if (!computed) {
                     for (long j = 0; j < F.cols(); j++) { Vec c = F.col(j); body += has_nan(c) ? nan_col(c.size()) : bits_of(c); }
                 } else {
-                    // the computed side is an Eigen product B * W, W_j = m_evecs.col(j) / sqrt(lambda_j): print the explicit-loop product of the
+                    // the computed side is an Eigen product B * W, W = scaled_evecs(k): print the explicit-loop product of the
                     // SAME operands (bit-comparable with the model) and require the returned matrix to agree with it componentwise
-                    Mat E = AX::evecs(svd); Vec lam = eg.eigenvalues(); bool ok = (E.cols() >= F.cols() && lam.size() >= F.cols());
+                    Mat E = AX::evecs(svd); Vec sv = svd.singular_values(); bool ok = (E.cols() >= F.cols() && sv.size() >= F.cols());
                     Mat Aabs = A.cwiseAbs();
                     for (long j = 0; j < F.cols() && ok; j++) {
-                        Vec w = E.col(j); const double sj = std::sqrt(lam[j]); for (long i = 0; i < w.size(); i++) w[i] = w[i] / sj;
+                        // scaled_evecs(): col / sigma_j for sigma_j > 0, the zero column otherwise (sigma = singular_values(), clamped)
+                        Vec w = E.col(j); const double sj = sv[j]; if (sj > 0.0) { for (long i = 0; i < w.size(); i++) w[i] = w[i] / sj; } else w.setZero();
                         Vec g = isU ? naive_mul(A, w) : naive_tmul(A, w);
                         Vec wb = w.cwiseAbs(); Vec bnd = isU ? Vec(Aabs * wb) : Vec(Aabs.transpose() * wb);
                         Vec f = F.col(j);
@@ -256,6 +258,9 @@ static void run_history(const CaseId& cid, const Gen& g, long ncomp, long ncv, c
             out.count("oracle_factor_counts");
             const long want_cols = std::min(o.k, last_ret), want_rows = isU ? m : n;
             if (F.cols() != want_cols || F.rows() != want_rows) { out.fail("svd-counts", std::string("matrix_") + o.op + "(" + str(o.k) + ") is " + str(F.rows()) + "x" + str(F.cols()) + ", expected " + str(want_rows) + "x" + str(want_cols), rj(oi)); continue; }
+            // finiteness of the factors (rank-deficient input: the column of a zero singular value must not be NaN/inf)
+            out.count("oracle_factor_finite");
+            if (F.size() > 0 && !F.allFinite()) { out.fail("svd-nan", std::string("matrix_") + o.op + "(" + str(o.k) + ") contains non-finite entries (division by a zero / NaN singular value)", rj(oi)); continue; }
             // latest-compute: a fresh object given only the most recent compute() arguments must return the same factor
             // (init() uses a fixed seed, so the inner solver is deterministic: bit-for-bit)
             if (ncompute >= 2) {
@@ -266,7 +271,7 @@ static void run_history(const CaseId& cid, const Gen& g, long ncomp, long ncv, c
                 double md = 0; if (same) for (long j = 0; j < F.cols(); j++) for (long i = 0; i < F.rows(); i++) { if (cbits(F(i, j)) != cbits(Ff(i, j))) same = false; md = std::max(md, std::fabs(F(i, j) - Ff(i, j))); }
                 if (!same) { std::ostringstream w; w << "matrix_" << o.op << "(" << o.k << ") after compute #" << ncompute << " differs from what a fresh solver returns for the same (latest) compute arguments: max |diff| = " << md << (stale ? " (eigenvector cache was filled before the latest compute)" : ""); out.fail(stale ? "svd-stale-cache" : "svd-latest", w.str(), rj(oi)); continue; }
             }
-            if (stale) continue;   // identities below are consequences of the same cache defect when the cache predates the last compute
+            // (until the fix d08c57f the identities below were skipped when the cache predated the last compute(): they failed as a consequence of F4)
             // factor identities on the columns whose singular value exceeds 1e-4 ||A||
             Vec s = svd.singular_values(); long kk = 0; while (kk < F.cols() && kk < s.size() && std::isfinite(s[kk]) && (LD) s[kk] > 1e-4L * nA) kk++;
             if (kk == 0) continue;
@@ -375,7 +380,7 @@ static void case_rankdef(const CaseId& cid, Out& out) {
     run_variant(r.range(0, 3), cid, g, ncomp, ncv, ops, out, cid.idx % 4 == 0, false);
 }
 
-// stream 4: fixed witnesses of the anticipated cache defect (F4): compute; matrix_V; compute with other maxit/tol; matrix_V
+// stream 4: fixed witnesses of the cache defect F4 (repaired by d08c57f: these histories must now be silent): compute; matrix_V; compute with other maxit/tol; matrix_V
 static void case_f4(const CaseId& cid, Out& out) {
     Rng r(12345, 164, cid.idx / 4);     // independent of VERIF_SEED: fixed inputs
     int shp = (int) (cid.idx % 4);
@@ -418,7 +423,7 @@ int main(int argc, char** argv) {
     const bool th = a.thorough();
     long n4 = 8, n1 = th ? 9000 : 260, n2 = th ? 3000 : 300, n3 = th ? 12000 : 400, n5 = th ? 5000 : 200;
     for (long i = 0; i < n4; i++) dispatch(CaseId{a.seed, 4, i, a.tier}, out);
-    // fixed witnesses (independent of VERIF_SEED and tier) of the recorded findings F5 (NaN on rank-deficient input) and F12 (small norm)
+    // fixed witnesses (independent of VERIF_SEED and tier) of F5 (NaN on rank-deficient input; repaired by a913b0d: must now be silent) and of the recorded finding F12 (small norm)
     { const long f5[] = {283, 273}; for (long i : f5) dispatch(CaseId{1, 3, i, "quick"}, out);
       const long f12[] = {19, 4}; for (long i : f12) dispatch(CaseId{1, 5, i, "quick"}, out); out.count("fixed_witness_cases", 4); }
     for (long i = 0; i < n1; i++) dispatch(CaseId{a.seed, 1, i, a.tier}, out);
